@@ -82,6 +82,10 @@ def gen_conv_cases(rng, tier, space, channel, signed_bcoh=False, force_pos=False
             x = grid(rng, n, gk)
             if force_pos:
                 x = [abs(v) if v != 0 else rng.logu(1e-3, 1) for v in x]
+            if not force_pos and gk != "edge" and x and x[0] == 0.0 and rng.random() < 0.35:
+                # a first point that is round-off, not zero (r = 0.1*k - 0.3 gives 5.55e-17), next to ordinary abscissae
+                x = [rng.choice([5.551115123125783e-17, 1e-15, 3e-9])] + x[1:]
+                gk = gk + "+tiny0"
             vk = rng.choice(["around1", "wide", "ints", "zeros"]) if rep else "around1"
             y = values(rng, n, vk)
             dk, dy = uncert(rng, n)
@@ -226,7 +230,29 @@ def same_arrays_twice(pystog, case):
         if a is not None and not np.array_equal(a, b, equal_nan=True):
             return "%s_to_%s altered the %s array it was given" % (names[case["X"]], names[case["Y"]], nm)
     second = f(x, y, d, **kw)
+    nm = "%s_to_%s" % (names[case["X"]], names[case["Y"]])
     for u, w in zip(first, second):
         if (u is None) != (w is None) or (u is not None and not np.array_equal(np.asarray(u, float), np.asarray(w, float), equal_nan=True)):
-            return "%s_to_%s gives a different result when called again with the same arrays" % (names[case["X"]], names[case["Y"]])
+            return "%s gives a different result when called again with the same arrays" % nm
+
+    def same(u, w):
+        return (u is None and w is None) or (u is not None and w is not None
+                                             and np.array_equal(np.asarray(u, float).ravel(), np.asarray(w, float).ravel(), equal_nan=True))
+    # the documented argument type is "numpy.array or list": the uncertainty as a list / tuple is the same uncertainty
+    if d is not None:
+        for form in (list, tuple):
+            try:
+                other = f(x, y, form(d.tolist()), **kw)
+            except Exception as e:
+                return "%s raises %s when the uncertainty is given as a %s" % (nm, type(e).__name__, form.__name__)
+            if not all(same(u, w) for u, w in zip(first, other)):
+                return "%s gives a different result when the uncertainty is given as a %s instead of an array" % (nm, form.__name__)
+    # conversions are pointwise: column vectors of shape (n, 1) are converted element by element
+    if len(case["x"]) >= 2:
+        try:
+            col = f(x.reshape(-1, 1), y.reshape(-1, 1), None if d is None else d.reshape(-1, 1), **kw)
+        except Exception as e:
+            return "%s raises %s for column vectors of shape (n, 1)" % (nm, type(e).__name__)
+        if not all(same(u, w) for u, w in zip(first, col)):
+            return "%s converts column vectors of shape (n, 1) differently from the same values as 1-D arrays" % nm
     return None
